@@ -1,5 +1,5 @@
-CONSTANT MaxInst = 2
-CONSTANT MaxHits = 1
+CONSTANT MaxInst = 1
+CONSTANT MaxHits = 2
 CONSTANT AtL = 1
 CONSTANT W1 = 2
 CONSTANT W2 = 1
